@@ -462,8 +462,13 @@ def number_oracle(ctx: Ctx, c13, ntype: str, kw: dict, held, text, inp):
     acct_any = bool(kw.get("use_accounting_style", False))
     if ntype in ("number", "percentage", "currency"):
         places = d["decimal_places"]
-        if places is not None and not 0 <= places < 253:
-            places = None if places >= 253 else places
+        if places is None and ntype == "currency":
+            # observation, not a violation: the docstring says "decimal_places … default 2, or None for automatic", but None IS the
+            # "not passed" marker of Formatting, so an explicit None also means 2 for a currency (automatic places can only be
+            # asked for as decimal_places=253)
+            places = 2
+        elif places is not None and places >= 253:
+            places = None
         style = 0 if acct_any else int(d["negative_style"])
         thou = bool(d["show_thousands_separator"])
     if ntype == "number":
